@@ -11,6 +11,9 @@ import (
 	"verifharness/vt"
 )
 
+// KnownSRIHSize is the key of the finding "ApplyPolicyToTxSet ignores PrevStateRoot when estimating the block size".
+const KnownSRIHSize = "proposal-size-ignores-stateroot"
+
 // PTx is one transaction offered to the pool of the proposing node.
 type PTx struct {
 	Payer      int      `json:"payer"`               // 0-3 Accounts[i], 4-5 Accounts[4..5]
@@ -20,9 +23,9 @@ type PTx struct {
 	SysFee     int64    `json:"sysfee"`
 	ScriptSize int      `json:"script_size"`
 	High       bool     `json:"high,omitempty"`
-	Conf       int      `json:"conf"`               // -1, else index of an earlier transaction named in a Conflicts attribute
-	Late       bool     `json:"late,omitempty"`     // offered to the pool in a second pass
-	Enc        *encPick `json:"enc,omitempty"`      // arrives as bytes in this non-minimal encoding (signed and paid as such)
+	Conf       int      `json:"conf"`           // -1, else index of an earlier transaction named in a Conflicts attribute
+	Late       bool     `json:"late,omitempty"` // offered to the pool in a second pass
+	Enc        *encPick `json:"enc,omitempty"`  // arrives as bytes in this non-minimal encoding (signed and paid as such)
 	Nonce      uint32   `json:"nonce"`
 	VUB        uint32   `json:"vub"`
 }
@@ -39,23 +42,16 @@ type PropCase struct {
 
 func genPropCase(t *rapid.T) PropCase {
 	c := PropCase{Chain: genChain(t)}
-	// Small limits so that each of them truncates the set in a good share of the cases.
-	switch rapid.IntRange(0, 3).Draw(t, "lim_size") {
-	case 0:
-		c.Chain.MaxBlockSize = 0 // default 256 KiB
-	default:
+	// Small limits so that each of them truncates the set in a good share of the cases: a drawn focus decides which
+	// limits are tight (the others keep their wide defaults).
+	focus := rapid.SampledFrom([]string{"size", "size", "count", "count", "sysfee", "sysfee", "all", "all", "none"}).Draw(t, "focus")
+	if focus == "size" || focus == "all" {
 		c.Chain.MaxBlockSize = uint32(rapid.IntRange(1500, 14000).Draw(t, "max_block_size"))
 	}
-	switch rapid.IntRange(0, 2).Draw(t, "lim_count") {
-	case 0:
-		c.Chain.MaxTxPerBlock = 0 // default 512
-	default:
+	if focus == "count" || focus == "all" {
 		c.Chain.MaxTxPerBlock = uint16(rapid.IntRange(1, 40).Draw(t, "max_tx"))
 	}
-	switch rapid.IntRange(0, 2).Draw(t, "lim_sys") {
-	case 0:
-		c.Chain.MaxBlockSysFee = 0 // chainkit default 9000 GAS
-	default:
+	if focus == "sysfee" || focus == "all" {
 		c.Chain.MaxBlockSysFee = rapid.Int64Range(20_0000_0000, 60_0000_0000).Draw(t, "max_sysfee") // >= the bootstrap's deploy fee
 	}
 	c.History = genHistory(t, 3)
@@ -64,7 +60,7 @@ func genPropCase(t *rapid.T) PropCase {
 		p := PTx{
 			Payer:      rapid.IntRange(0, 5).Draw(t, "payer"),
 			CoSigner:   rapid.IntRange(-1, 3).Draw(t, "cosigner"),
-			SysFee:     rapid.SampledFrom([]int64{0, 1000, 100000, 1_0000_0000, 3_0000_0000, 8_0000_0000}).Draw(t, "sysfee"),
+			SysFee:     rapid.SampledFrom([]int64{0, 1000, 100000, 1_0000_0000, 3_0000_0000, 8_0000_0000, 8_0000_0000}).Draw(t, "sysfee"),
 			ScriptSize: rapid.SampledFrom([]int{1, 3, 40, 100, 253, 400, 1000, 3000}).Draw(t, "ssize"),
 			ExtraFee:   rapid.SampledFrom([]int64{0, 0, 1, 1000, 50000, 1000000, 1000001}).Draw(t, "extra"),
 			High:       rapid.IntRange(0, 9).Draw(t, "high") == 0,
@@ -98,7 +94,12 @@ func accountSigner(i int) SignerSpec {
 }
 
 func checkPropCase(c PropCase, o *vt.Obs) error {
-	nonCanon := !vt.Known(KnownNonCanonical)
+	return checkProp(c, o, !vt.Known(KnownNonCanonical), vt.Known(KnownSRIHSize))
+}
+
+// checkProp evaluates one proposal case. nonCanon: non-minimal encodings are offered; srihKnown: the listed
+// finding about the state-root bytes is tolerated.
+func checkProp(c PropCase, o *vt.Obs, nonCanon, srihKnown bool) error {
 	e, err := newEnv(c.Chain)
 	if err != nil {
 		return err
@@ -144,8 +145,12 @@ func checkPropCase(c PropCase, o *vt.Obs) error {
 				return fmt.Errorf("tx %d: %v", i, err)
 			}
 			if ok {
-				raws[i] = raw
-				o.Label("offered-noncanonical")
+				if _, derr := transaction.NewTransactionFromBytes(raw); derr != nil {
+					o.Label("noncanonical-rejected-by-decoder") // such bytes cannot arrive: offer the canonical form instead
+				} else {
+					raws[i] = raw
+					o.Label("offered-noncanonical")
+				}
 			}
 		}
 		if raws[i] == nil {
@@ -232,7 +237,17 @@ func checkPropCase(c PropCase, o *vt.Obs) error {
 		return fmt.Errorf("encoding the proposal: %v", w.Err)
 	}
 	raw := w.Bytes()
-	if len(raw) > int(cfg.MaxBlockSize) {
+	// Known finding (when listed): ApplyPolicyToTxSet estimates the block size without the 32-byte PrevStateRoot on
+	// StateRootInHeader chains; exactly that excess is tolerated then so that the search continues behind it.
+	slack := 0
+	if c.Chain.SRIH && srihKnown {
+		slack = util.Uint256Size
+		if len(raw) > int(cfg.MaxBlockSize) && len(raw) <= int(cfg.MaxBlockSize)+slack {
+			o.Excluded()
+			o.Label("size-excess-excluded-known")
+		}
+	}
+	if len(raw) > int(cfg.MaxBlockSize)+slack {
 		return fmt.Errorf("proposal of %d transactions taken from ApplyPolicyToTxSet encodes to %d bytes > MaxBlockSize %d (StateRootInHeader=%v, %d validators)", len(sel), len(raw), cfg.MaxBlockSize, c.Chain.SRIH, len(blk.Script.VerificationScript)/35)
 	}
 	dec, err := ck.DecodeBlock(raw, c.Chain.SRIH)
@@ -248,7 +263,12 @@ func checkPropCase(c PropCase, o *vt.Obs) error {
 				sel[i].Hash().StringLE(), sel[i].Size(), dec.Transactions[i].Hash().StringLE(), dec.Transactions[i].Size())
 		}
 	}
-	if got := dec.GetExpectedBlockSize(); got > int(cfg.MaxBlockSize) {
+	// block.go: "GetExpectedBlockSize returns the expected block size which should be equal to io.GetVarSize(b)";
+	// it is what ApplyPolicyToTxSet (primary) and verifyBlock (backups) compare with MaxBlockSize.
+	if got := dec.GetExpectedBlockSize(); got != len(raw) {
+		return fmt.Errorf("GetExpectedBlockSize of the decoded proposal = %d, its encoding has %d bytes (%d transactions)", got, len(raw), len(sel))
+	}
+	if got := dec.GetExpectedBlockSize(); got > int(cfg.MaxBlockSize)+slack {
 		return fmt.Errorf("backup-side size check: GetExpectedBlockSize %d > MaxBlockSize %d", got, cfg.MaxBlockSize)
 	}
 
